@@ -253,6 +253,22 @@ func (fe *FuncEnc) callByContract(f *Frame, callee *ssa.Function, name string, c
 	if f.parent == nil {
 		fe.cover("before "+fe.srcLabel(pos, "call"), path, pos)
 	}
+	// termination of (mutual) recursion: the callee's measure is lexicographically below the caller's entry measure
+	if f.parent == nil && fe.con != nil && len(fe.con.Decreases) > 0 && len(con.Decreases) > 0 && fe.eng.reaches(callee, fe.fn) {
+		var m, M []Term
+		for _, d := range con.Decreases {
+			m = append(m, fe.evalClause(cf, d, pre, pre, nil, nil, pos))
+		}
+		M = fe.entryMeasure
+		if len(M) == len(m) && len(m) > 0 {
+			goal := tBool(false)
+			for i := len(m) - 1; i >= 0; i-- {
+				goal = tOr(tLt(m[i], M[i]), tAnd(tEq(m[i], M[i]), goal))
+			}
+			goal = tAnd(tLe(tInt(0), M[0]), goal)
+			fe.emit("dec.call", fe.srcLabel(pos, "call"), path, goal, "recursion terminates: measure of "+name+" below the measure of "+fe.name, pos)
+		}
+	}
 	fe.havocMods(st, fe.eng.modsetOf(callee), short)
 	res := fe.freshResults(callee, st, path, short)
 	defer func() {
@@ -1124,4 +1140,27 @@ func (e *Engine) registerAllComps() {
 			}
 		}
 	}
+}
+
+// reaches: can `from` (transitively) call `to`?
+func (e *Engine) reaches(from, to *ssa.Function) bool {
+	if from == to {
+		return true
+	}
+	seen := map[*ssa.Function]bool{from: true}
+	stack := []*ssa.Function{from}
+	for len(stack) > 0 {
+		g := stack[len(stack)-1]
+		stack = stack[:len(stack)-1]
+		for _, c := range e.calleesOf(g) {
+			if c == to {
+				return true
+			}
+			if !seen[c] {
+				seen[c] = true
+				stack = append(stack, c)
+			}
+		}
+	}
+	return false
 }
